@@ -378,6 +378,81 @@ fn rx_queue(port: u16) -> Option<usize> {
     None
 }
 
+/// More bytes queued on the socket than the output stream has room for: the
+/// source has to take them in several calls, dropping nothing.
+fn tcp_bulk(rep: &mut Report) {
+    verif::clear_stream_specs();
+    verif::set_default_stream_size(Some(PAGE));
+    let nbytes = 10_007usize;
+    let stream: Vec<u8> = (0..nbytes).map(|i| (i as u32).wrapping_mul(2654435761).to_le_bytes()[1]).collect();
+    let want: Vec<u64> = stream.chunks_exact(4).map(|c| u32::from_le_bytes(c.try_into().unwrap()) as u64).collect();
+    rep.evaluations += 1;
+    rep.distinct_nontrivial += 1;
+    let case = json!({"what": "segmentation", "transport": "tcp-bulk", "type": "u32", "bytes": nbytes});
+    let mut got: Vec<u64> = vec![];
+    let res: Result<(), String> = (|| {
+        let listener = std::net::TcpListener::bind("127.0.0.1:0").map_err(|e| format!("machinery: {e}"))?;
+        let port = listener.local_addr().unwrap().port();
+        // SAFETY: dup/close of stdin's descriptor, to learn the next free number.
+        let client_fd = unsafe {
+            let p = libc::dup(0);
+            libc::close(p);
+            p
+        };
+        let (mut src, out) = TcpSource::<u32>::new("127.0.0.1", port).map_err(|e| format!("open: {e}"))?;
+        let (mut conn, _) = listener.accept().map_err(|e| format!("machinery: {e}"))?;
+        // SAFETY: fstat on a descriptor number.
+        let mut st: libc::stat = unsafe { std::mem::zeroed() };
+        if unsafe { libc::fstat(client_fd, &mut st) } != 0 || (st.st_mode & libc::S_IFMT) != libc::S_IFSOCK {
+            return Err("machinery: cannot identify the client socket".into());
+        }
+        conn.write_all(&stream).map_err(|e| format!("machinery: {e}"))?;
+        conn.flush().ok();
+        let queued = || -> usize {
+            let mut q: libc::c_int = 0;
+            // SAFETY: FIONREAD writes one int.
+            let rc = unsafe { libc::ioctl(client_fd, libc::FIONREAD, &mut q) };
+            if rc == 0 { q as usize } else { 0 }
+        };
+        let t0 = std::time::Instant::now();
+        while queued() < nbytes {
+            if t0.elapsed().as_millis() > 3000 {
+                return Err("machinery: bytes never showed up in the receive queue".into());
+            }
+            std::thread::yield_now();
+        }
+        // The read blocks: only call while something is queued.
+        let mut calls = 0;
+        while queued() > 0 {
+            calls += 1;
+            if calls > 100 {
+                return Err("error: 100 calls and the socket is still not drained".into());
+            }
+            work_once(&mut src)?;
+            let (rb, _) = out.read_buf().map_err(|e| format!("{e}"))?;
+            got.extend(rb.slice().iter().map(|x| *x as u64));
+            let n = rb.len();
+            rb.consume(n);
+        }
+        Ok(())
+    })();
+    match res {
+        Err(m) if m.starts_with("machinery") => rep.cap(format!("{case}: {m}")),
+        Err(m) => viol(rep, "TcpSource", if m.starts_with("panic") { "segmentation-panic" } else { "segmentation-error" }, format!("{case}: {m}"), case),
+        Ok(()) => {
+            if got != want {
+                viol(
+                    rep,
+                    "TcpSource",
+                    "segmentation",
+                    format!("{case}: reassembled {} samples, the byte stream holds {}", got.len(), want.len()),
+                    case,
+                );
+            }
+        }
+    }
+}
+
 fn segmentation<T>(rep: &mut Report, name: &str, stream: &[u8], comps: &[Vec<usize>], transport: &str)
 where
     T: Copy + Default + std::fmt::Debug + Bits + Sample<Type = T> + 'static,
@@ -494,6 +569,7 @@ pub fn replay_json(v: &Value) -> Result<(), String> {
     let case = &v["case"];
     let mut rep = Report::new("C14", "formats");
     match case["what"].as_str().unwrap_or("") {
+        "segmentation" if case["transport"] == "tcp-bulk" => tcp_bulk(&mut rep),
         "segmentation" => {
             let comp: Vec<usize> = case["reads"].as_array().unwrap().iter().map(|x| x.as_u64().unwrap() as usize).collect();
             let stream: Vec<u8> = (0..24u8).map(|i| i.wrapping_mul(37).wrapping_add(11)).collect();
@@ -654,6 +730,9 @@ pub fn run(tier: &str, shard: Option<&str>) -> Report {
             // parts up to 9 for splits in later samples.
             segmentation::<Complex>(&mut rep, "Complex", &stream[..16], &compositions(16, 16).into_iter().step_by(if thorough { 1 } else { 13 }).collect::<Vec<_>>(), tr);
         }
+    }
+    if want("tcp") {
+        tcp_bulk(&mut rep);
     }
     let _ = std::fs::remove_dir_all(tmpdir());
     rep.states = rep.evaluations;
